@@ -17,8 +17,13 @@ Codes(s) == StrToUtf8(s)
 OpenKind == [k |-> "open"]
 
 StartsWith(cs, pre) == Len(cs) >= Len(pre) /\ SubSeq(cs, 1, Len(pre)) = pre
-CanonNat(ds) == Len(ds) >= 1 /\ AllDigit(ds) /\ (Len(ds) = 1 \/ ds[1] # 48) /\ Len(ds) <= 6
+\* a canonical decimal numeral (of any length): digits, no leading zero, no sign
+CanonDec(ds) == Len(ds) >= 1 /\ AllDigit(ds) /\ (Len(ds) = 1 \/ ds[1] # 48)
+\* ... that is small enough to be used as a number by this specification
+CanonNat(ds) == CanonDec(ds) /\ Len(ds) <= 9
 NatOf(ds) == BnToNat(BnFromDec(DecVals(ds)))
+\* the widths: a canonical numeral of at most 3 digits in the given set
+WidthIn(ds, set) == CanonDec(ds) /\ Len(ds) <= 3 /\ NatOf(ds) \in set
 
 IsIdentChar(c) == IsDigitCode(c) \/ (c >= 65 /\ c <= 90) \/ (c >= 97 /\ c <= 122) \/ c = 95 \/ c = 36
 IsIdent(cs) == Len(cs) >= 1 /\ ~IsDigitCode(cs[1]) /\ \A i \in 1..Len(cs) : IsIdentChar(cs[i])
@@ -31,15 +36,11 @@ AtomOrStruct(cs) ==
   IN
   IF s \in {"bool", "address", "string"} THEN [k |-> s]
   ELSE IF s = "bytes" THEN [k |-> "bytes", n |-> 0]
-  ELSE IF sized("bytes") THEN
-    (IF CanonNat(num("bytes")) /\ NatOf(num("bytes")) \in 1..32 THEN [k |-> "bytes", n |-> NatOf(num("bytes"))]
-     ELSE IF CanonNat(num("bytes")) THEN [k |-> "struct", name |-> s] ELSE OpenKind)
-  ELSE IF sized("uint") THEN
-    (IF CanonNat(num("uint")) /\ NatOf(num("uint")) \in 8..256 /\ NatOf(num("uint")) % 8 = 0 THEN [k |-> "uint", n |-> NatOf(num("uint"))]
-     ELSE IF CanonNat(num("uint")) THEN [k |-> "struct", name |-> s] ELSE OpenKind)
-  ELSE IF sized("int") THEN
-    (IF CanonNat(num("int")) /\ NatOf(num("int")) \in 8..256 /\ NatOf(num("int")) % 8 = 0 THEN [k |-> "int", n |-> NatOf(num("int"))]
-     ELSE IF CanonNat(num("int")) THEN [k |-> "struct", name |-> s] ELSE OpenKind)
+  \* bytesN / uintN / intN exist for the canonical numerals N of the standard widths only; every other name of that
+  \* shape (uint7, uint0256, uint4294967552, bytes33, bytes032 ...) is an identifier like any other: the name of a struct
+  ELSE IF sized("bytes") /\ WidthIn(num("bytes"), 1..32) THEN [k |-> "bytes", n |-> NatOf(num("bytes"))]
+  ELSE IF sized("uint") /\ WidthIn(num("uint"), {8 * i : i \in 1..32}) THEN [k |-> "uint", n |-> NatOf(num("uint"))]
+  ELSE IF sized("int") /\ WidthIn(num("int"), {8 * i : i \in 1..32}) THEN [k |-> "int", n |-> NatOf(num("int"))]
   ELSE IF IsIdent(cs) THEN [k |-> "struct", name |-> s]
   ELSE OpenKind
 
@@ -57,6 +58,9 @@ ParseType(cs) ==
          IN  IF inner.k = "open" THEN OpenKind
              ELSE IF sz = <<>> THEN [k |-> "array", of |-> inner, size |-> -1]
              ELSE IF CanonNat(sz) THEN [k |-> "array", of |-> inner, size |-> NatOf(sz)]
+             \* a canonical size of ten or more digits: a fixed-size array type that no document of this
+             \* specification has a value of (size -2, the numeral kept for printing)
+             ELSE IF CanonDec(sz) THEN [k |-> "array", of |-> inner, size |-> -2, numeral |-> sz]
              ELSE OpenKind
   ELSE AtomOrStruct(cs)
 
@@ -66,7 +70,7 @@ PrintType(kd) ==
   ELSE IF kd.k = "bytes" THEN Codes("bytes") \o (IF kd.n = 0 THEN <<>> ELSE NatDecCodes(kd.n))
   ELSE IF kd.k \in {"uint", "int"} THEN Codes(kd.k) \o NatDecCodes(kd.n)
   ELSE IF kd.k = "struct" THEN Codes(kd.name)
-  ELSE PrintType(kd.of) \o <<91>> \o (IF kd.size < 0 THEN <<>> ELSE NatDecCodes(kd.size)) \o <<93>>
+  ELSE PrintType(kd.of) \o <<91>> \o (IF kd.size = -1 THEN <<>> ELSE IF kd.size = -2 THEN kd.numeral ELSE NatDecCodes(kd.size)) \o <<93>>
 
 RECURSIVE StructRef(_)
 \* the struct name a kind refers to (through arrays), or "" for none
@@ -160,7 +164,7 @@ EncodeValue(types, kd, node) ==
     (IF node.k # "obj" THEN Refuse("wrong_kind") ELSE HashStructOf(types, kd.name, node))
   ELSE IF kd.k = "array" THEN
     (IF node.k # "arr" THEN Refuse("wrong_kind")
-     ELSE IF kd.size >= 0 /\ Len(node.v) # kd.size THEN Refuse("fixed_array_len")
+     ELSE IF kd.size = -2 \/ (kd.size >= 0 /\ Len(node.v) # kd.size) THEN Refuse("fixed_array_len")
      ELSE LET es == Mat([i \in 1..Len(node.v) |-> EncodeValue(types, kd.of, node.v[i])])
               c  == Worst({es[i].c : i \in 1..Len(es)})
           IN  IF c = "reject" THEN es[CHOOSE i \in 1..Len(es) : es[i].c = "reject"]
@@ -217,8 +221,8 @@ TypedDataOutcome(doc) ==
       prim  == ObjGet(doc, "primaryType").v
   IN
   IF ~("EIP712Domain" \in DOMAIN types) THEN [c |-> "reject", why |-> "no_domain_type"]
-  ELSE IF \E m \in 1..Len(types["EIP712Domain"]) : HasOpen(types["EIP712Domain"][m].kind)
-    THEN [c |-> "open", why |-> "domain_member_spelling"]
+  \* (a member whose type text is no type at all - blanks, signs, brackets out of place - is certainly not the
+  \* standard type of a standard field: C20 refuses it like any other foreign type)
   ELSE IF ~WellFormedDomain(types["EIP712Domain"]) THEN [c |-> "reject", why |-> "domain_type"]
   ELSE
   LET ds == HashStructOf(types, "EIP712Domain", ObjGet(doc, "domain"))
